@@ -92,6 +92,19 @@ def case_multivalue(draw):
 
 
 @st.composite
+def case_multivalue_long(draw):
+    """A mini-batch of the default length and beyond (8 200 - 17 000 rows) with a multi-value column: the indicator of a token is '1'
+    exactly on the rows whose cell contains it, whatever the row number."""
+    n = draw(st.integers(8200, 17000))
+    seed = draw(st.integers(0, 10**6))
+    toks = ['red', 'green', 'blue', 'a', 'b', '1']
+    mv = ['-'.join(toks[(seed + i * (j + 3)) % len(toks)] for j in range(1 + (i * 7 + seed) % 3)) if (i + seed) % 11 else '' for i in range(n)]
+    cols = {'mv0': mv, 'mv1': ['a'] * n, 'a': [f'u{i % 5}' for i in range(n)], 'b': ['v'] * n, 'c': ['w'] * n, 'num': ['1'] * n,
+            'label': [str(i % 2) for i in range(n)]}
+    return {'frame': {'n': n, 'cols': cols}, 'features': 'mv0', 'missing': draw(st.sampled_from([',{}', 'NA,{}'])), 'earlier': 0}
+
+
+@st.composite
 def case_sub(draw):
     fr = draw(frame())
     mapping = draw(sub_specs())
@@ -360,6 +373,7 @@ def dispatch(case, rec):
     return oracle_noise(case, rec)
 
 
+ORACLES['C11/multivalue-long'] = oracle_multivalue
 for _k in ('additive', 'rows', 'multivalue', 'subfeature', 'control'):
     ORACLES['C11/' + _k] = dispatch
 
@@ -367,6 +381,7 @@ for _k in ('additive', 'rows', 'multivalue', 'subfeature', 'control'):
 def run(ctx):
     drive(ctx, [
         Clause('C11/multivalue-direct', case_multivalue, oracle_multivalue, quick=500, thorough=15000, quick_shards=4),
+        Clause('C11/multivalue-long', case_multivalue_long, oracle_multivalue, quick=2, thorough=32, quick_shards=2, thorough_shards=16),
         Clause('C11/subfeature-direct', case_sub, oracle_sub, quick=500, thorough=15000, quick_shards=4),
         Clause('C11/noise-direct', case_noise, oracle_noise, quick=150, thorough=4000, quick_shards=2),
         Clause('C11/chain', case_chain, oracle_chain, quick=500, thorough=15000, quick_shards=6),
